@@ -665,6 +665,39 @@ def c30(ops):
     shared = None            # one task object whose inputs are re-assigned (kinds 5 = construct, 6 = run)
     for (kind, a, b) in ops:
         hist.append((kind, a, b))
+        if kind in (7, 8):
+            # a split task runs through an implicit workflow whose construction is cached as well; 8: container_ndim = 2
+            vals = [[a, b], [b, a + 10]]
+            t = D.Desc().split(a=vals) if kind == 7 else D.Desc().split(a=vals, container_ndim={"a": 2})
+            d = E.scratch()
+            try:
+                out, err = call(t, cache_root=d)
+            finally:
+                E.cleanup(d)
+            want = [repr(v) for v in vals] if kind == 7 else [repr(x) for v in vals for x in v]
+            if err is not None or list(out.out) != want:
+                T.reach()
+                return "history %s: split of %r with container_ndim %s gave %r / %r, a fresh construction gives %r" % (
+                    hist, vals, None if kind == 7 else 2, err, getattr(out, "out", None), want)
+            continue
+        if kind == 9:
+            # a workflow whose construction is invalid for a == 3: every construction has to behave like a fresh one
+            def attempt():
+                try:
+                    return ("ok", _sig(Workflow.construct(D.CWV(a=a, b=b))))
+                except Exception as e:
+                    return ("raises", type(e).__name__)
+            got = attempt()
+            saved = Workflow._constructed_cache
+            Workflow._constructed_cache = defaultdict(lambda: defaultdict(dict))
+            try:
+                fresh = attempt()
+            finally:
+                Workflow._constructed_cache = saved
+            if got != fresh:
+                T.reach()
+                return "history %s: construct(CWV(a=%d, b=%d)) -> %s, a fresh construction -> %s" % (hist, a, b, got, fresh)
+            continue
         if kind in (5, 6):
             if shared is None:
                 shared = D.CW(a=a, b=b)
